@@ -10,11 +10,12 @@ warnings.filterwarnings("ignore")
 
 class _Epsg(dict):
     def __missing__(self, cls):
-        return int(cls[1:])
+        # "cNNNN" = EPSG:NNNN; "eNNNN" = ESRI:NNNN (an authority other than EPSG)
+        return int(cls[1:]) if cls[0] == "c" else f"ESRI:{cls[1:]}"
 
 
 EPSG = _Epsg()
-_PROBE = {"c4326": (10.0, 20.0), "c3857": (1113194.9, 2273030.9), "c3577": (1000000.0, -3000000.0)}
+_PROBE = {"c4326": (10.0, 20.0), "c3857": (1113194.9, 2273030.9), "c3577": (1000000.0, -3000000.0), "e54009": (1000000.0, 2000000.0), "e54030": (1500000.0, -1000000.0)}
 
 
 class _Probe(dict):
@@ -51,7 +52,10 @@ def main():
             return code
         if route == "epsgstr":
             return ["epsg:%d", "EPSG:%d", "Epsg:%d"][variant % 3] % code
-        base = pyproj.CRS.from_epsg(code)
+        if route == "authstr":
+            # authority:code string of another authority, in three letter cases (the code keeps the spelling it was given)
+            return [str(code), str(code).lower(), str(code).title()][variant % 3]
+        base = pyproj.CRS.from_user_input(code)
         if route == "wkt":
             return base.to_wkt()
         if route == "dict":
@@ -86,11 +90,16 @@ def main():
         clear()
         c = CRS(build(cls, route))
         fresh[(cls, route)] = (str(c), hash(c), tokenize(c))
+        if route == "authstr":
+            for v in range(3):
+                clear()
+                c = CRS(build(cls, route, v))
+                fresh[(cls, route, v)] = (str(c), hash(c), tokenize(c))
     fresh_tr = {}
 
     def expected_tr(c1, c2):
         if (c1, c2) not in fresh_tr:
-            t = pyproj.Transformer.from_crs(EPSG[c1], EPSG[c2], always_xy=True)
+            t = pyproj.Transformer.from_crs(pyproj.CRS.from_user_input(EPSG[c1]), pyproj.CRS.from_user_input(EPSG[c2]), always_xy=True)
             fresh_tr[(c1, c2)] = t.transform(*PROBE[c1])
         return fresh_tr[(c1, c2)]
 
@@ -108,7 +117,7 @@ def main():
                     r = st["r"]
                     if op == "make":
                         o = CRS(build(st["cls"], st["route"], tid + k))
-                        f = fresh[(st["cls"], st["route"])]
+                        f = fresh[(st["cls"], st["route"], (tid + k) % 3)] if st["route"] == "authstr" else fresh[(st["cls"], st["route"])]
                         ob["stable"] = bool(str(o).upper() == f[0].upper() if st["route"] == "epsgstr" else str(o) == f[0]) \
                             and hash(o) == f[1] and tokenize(o) == f[2]
                     elif op == "copy":
